@@ -5,5 +5,7 @@ CONSTANTS
   QueryEps = {"query", "query_msgpack", "estimate", "arrow"}
   NoPrologue = {}
   Emit = TRUE
+  Retries = 2
+  RetrySwitchesPeer = FALSE
 INVARIANTS TypeOK EmitInv
 CHECK_DEADLOCK FALSE
